@@ -122,6 +122,8 @@ def _finished_table_ok(F, fb, kind, bparam):
                 return "the key is not removed when the bracket finishes"
         elif removes:
             return "the key is removed although the bracket is not finished"
+    if not any(True for p in tab for a, out in p.conds if a == ("arg", bparam) and out is True):
+        return "no retried path"
     return True if some_paths >= 1 else "no path returns Finished"
 
 
@@ -190,35 +192,40 @@ def r3(F, R):
             A.canon_place(ex, {"l": op_local(t["args"][1]), "p": []})["l"] == t_start["dest"]["l"]]
     R.check(len(sent) == 1 and all(ex.dominates(sent[0][0], p) for p, _ in pushes_ex), "started-sent-before-dispatch", s_start, "bracket Started events precede the batch",
             "the batch can be dispatched before its Feature/Rule Started events are sent")
-    # finished bookkeeping
-    fins = [x for x in bk_calls if x[2] is not start_fn and any(ty == "bool" for ty in x[2].locals[1:x[2].arg_count + 1])]
-    R.check(len(fins) == 2, "finished-bookkeeping/found", ex, "", f"{len(fins)} finished-bookkeeping calls")
-    for s, t, fb in fins:
+    # finished bookkeeping — the calls made per received completion message (completions.py: the receive loop may live in
+    # EXECUTE or in a private helper of it)
+    from . import completions as CP
+    C = CP.table(F)
+    fbs = {}
+    for r in C.msg_rows:
+        for i, cb, e in r["bk"]:
+            if cb is not start_fn and any(ty == "bool" for ty in cb.locals[1:cb.arg_count + 1]):
+                fbs[cb.key] = cb
+    fins = list(fbs.values())
+    R.check(len(fins) == 2, "finished-bookkeeping/found", C.body, "", f"{len(fins)} finished-bookkeeping calls")
+    for fb in fins:
         kind = "rule" if any("gherkin::Rule" in ty for ty in fb.locals[1:fb.arg_count + 1]) else "feature"
         bparam = [i for i, ty in enumerate(fb.locals) if ty == "bool" and 1 <= i <= fb.arg_count][0]
-        touches = [s2 for s2, t2 in fb.calls(lambda t2: callee_is(t2, r"HashMap::<.*>::(get_mut|entry|remove|get|insert)$"))]
-        ok = bool(touches)
-        for s2 in touches:
-            g_ok = False
-            for g in A.guards_of(fb, s2):
-                l = g.discr_local
-                if l is not None and A.canon_place(fb, {"l": l, "p": []})["l"] == bparam and g.polarity() is False:
-                    g_ok = True
-            ok = ok and g_ok
-        R.check(ok, f"retried-does-not-count/{kind}", fb, "if is_retried { return None } before touching the map",
-                f"a retried attempt is counted as a finished scenario of its {kind} (the bracket closes too early)")
         # Finished is returned exactly when the incremented counter equals the bracket's scenario count, after the key
-        # was removed — on the function's path table (spelling-independent)
+        # was removed, and a retried attempt touches nothing — on the function's path table (spelling-independent)
         okt = _finished_table_ok(F, fb, kind, bparam)
+        R.check(okt != "a retried attempt is counted" and okt != "no retried path", f"retried-does-not-count/{kind}", fb, "if is_retried { return None } before touching the map",
+                f"a retried attempt is counted as a finished scenario of its {kind} (the bracket closes too early)")
         R.check(okt is True, f"finished-iff-all-scenarios-done/{kind}", fb, "(total == finished + 1).then(|| { remove; Finished })",
                 f"{kind.capitalize()}::Finished is not emitted exactly when the incremented counter equals the {kind}'s scenario count (after removing the key)" +
                 (f": {okt}" if okt is not True else ""))
     if len(fins) == 2:
-        rule_c = [s for s, t, fb in fins if any("gherkin::Rule" in ty for ty in fb.locals[1:fb.arg_count + 1])]
-        feat_c = [s for s, t, fb in fins if s not in rule_c]
-        drv = [s for s, t in ex.calls(lambda t: callee_is(t, r"try_next$", r"try_recv$"))]
-        R.check(bool(rule_c and feat_c) and not ex.site_reaches(feat_c[0], rule_c[0], stop=drv) and ex.site_reaches(rule_c[0], feat_c[0], stop=drv), "rule-closed-before-feature", feat_c[0] if feat_c else ex,
-                "Rule::Finished is produced before Feature::Finished", "for one completion the feature bracket can be closed before the rule bracket")
+        is_rule = lambda cb: any("gherkin::Rule" in ty for ty in cb.locals[1:cb.arg_count + 1])
+        order_ok, both = True, 0
+        for r in C.msg_rows:
+            ri = [i for i, cb, e in r["bk"] if cb.key in fbs and is_rule(cb)]
+            fi = [i for i, cb, e in r["bk"] if cb.key in fbs and not is_rule(cb)]
+            if ri and fi:
+                both += 1
+                order_ok = order_ok and max(ri) < min(fi)
+            order_ok = order_ok and len(fi) == 1
+        R.check(order_ok and both >= 1, "rule-closed-before-feature", C.body,
+                "Rule::Finished is produced before Feature::Finished", "for one completion the feature bracket can be closed before the rule bracket (or the feature's bookkeeping is skipped)")
     R.floor(14)
 
 
